@@ -108,7 +108,7 @@ CLAIMED["C12"] = dict(
 CLAIMED["C16"] = dict(
     category="exploration",
     technique="deterministic simulation with a hostile client: structured and seeded mutations of CMS messages (raw and validly re-signed), XML and API JSON bodies against the protocol entry points and manager calls under catch_unwind",
-    text="Seeded search over malformed inputs at the entry points the simulator can reach (rfc6492, rfc8181, serde decoding of API request types followed by the manager call). The HTTP routing layer itself (path segments, headers) is outside the simulator; that part of the quantifier is not covered (see DESIGN.md).",
+    text="Seeded search over malformed inputs at the entry points the simulator can reach (rfc6492, rfc8181, serde decoding of API request types followed by the manager call). The values of the numeric path segments of the history and stale-publisher routes are passed to the manager calls their handlers make (extreme values). The HTTP routing layer itself (path splitting, headers) is outside the simulator; that part of the quantifier is not covered (see DESIGN.md).",
     design_ref="DESIGN.md §5 C16",
 )
 CLAIMED["C15"] = dict(
